@@ -147,7 +147,7 @@ def spell_alpha(rng, rgb, alpha, kind=None):
 
 
 POISON_STR = ["nope", "#12", "#12345", "rgb(300,0,0)", "rgb(1,2)", "", " ", "inherit", "currentcolor", "transparent",
-              "var(--x)", "hsl(120)", "#ggg", "rgb(a,b,c)", "12", "url(x)", "rgba(1,2,3,7e9)",
+              "var(--x)", "hsl(120)", "#ggg", "rgb(a,b,c)", "12", "url(x)", "rgba(1,2,3,7e9)", "rgba(0,0,0,35)", "rgba(10, 20, 30, 50)", "hsla(0, 0%, 20%, 80)",
               "[/]", "[/b]", "#[/b]", "var[/x]", "[bold]red", "{0}", "%s", "%(x)s", "\\", "red\n", "<b>", "a\x00b", "\t\n"]
 # modern / unusual CSS colour syntaxes: whether the library reads them or rejects them, its answer must not depend on
 # anything but the string (used only where the reference is the same call in a pristine process)
